@@ -60,6 +60,8 @@ def tlc(ctx, cwd, spec, cfg, workers=None, timeout=1800, simulate=None, depth=No
     if dfs:
         jto.append("-Dtlc2.tool.queue.IStateQueue=StateDeque")
     jto.append("-Xss256m")
+    # the tlc wrapper takes 25 % of RAM per JVM; several checks run side by side, so cap the heap
+    jto.append("-Xmx" + (heap or os.environ.get("VERIF_TLC_HEAP", "6g")))
     env["JAVA_TOOL_OPTIONS"] = " ".join(jto)
     cmd += ["-workers", str(workers or NCPU), "-metadir", meta, "-config", cfg]
     if simulate:
